@@ -83,7 +83,7 @@ def check_generation(k, bits, t, as_bool, with_latter_map=True, verbose=False, d
             return ("returned vertex description denotes %s, vertices with arcs are %s (k=%d t=%d mask=%s)"
                     % (None if denoted is None else sorted(denoted)[:12], sorted(with_arcs)[:12], k, t,
                        short(bits))), labels
-    if with_latter_map and t >= 2 and mask_set:
+    if with_latter_map and t >= 2 and mask_set and k <= 4:  # remove_useless is quadratic in the number of vertices
         valid = lib_call(dsw.connect_valid_graph, observed_length=k, vertices=mask_array(bits, as_bool))
         if isinstance(valid, Raised):
             return "connect_valid_graph raised %r on a non-empty mask" % valid, labels
@@ -133,14 +133,15 @@ def evaluate_order2(case):
 
 @st.composite
 def drawn_cases(draw, tier):
-    k = draw(st.sampled_from([1, 3, 3, 3, 4, 4] if tier == "quick" else [1, 3, 3, 4, 4, 5]))
+    k = draw(st.sampled_from([1, 3, 3, 3, 4, 4, 3, 4, 3, 4, 4, 3, 1, 3, 4, 6, 7] if tier == "quick"
+                             else [1, 3, 3, 4, 4, 5, 5, 3, 4, 5, 6, 7]))
     bits = draw(gens.masks(k))
     t = draw(st.integers(1, 4))
     drop = draw(st.lists(st.integers(0, 4 ** k - 1), min_size=1, max_size=6))
     if draw(st.sampled_from([False] * 11 + [True])):
         bits = [1] * len(bits)  # the complete mask
     return {"k": k, "bits": "".join(map(str, bits)), "t": t, "bool": draw(st.booleans()), "drop": drop,
-            "verbose": draw(st.integers(0, 4)) == 0,
+            "verbose": k <= 5 and draw(st.integers(0, 4)) == 0,
             "dtype": draw(st.sampled_from([None, None, None, "uint8", "int8", "int32"]))}
 
 
